@@ -119,6 +119,15 @@ Section EigenMatrix.
     destruct l as [|e [|e2 t]]; cbn in Hlen; try lia. right. exists e. reflexivity.
   Qed.
 
+  Lemma aent_from_store (g : gstate) weighted u v :
+    WF g -> multi (sp g) = false ->
+    (stored_between g u v = [] /\ aent g weighted u v = n0 F) \/
+    (exists e, stored_between g u v = [e] /\ aent g weighted u v = edge_w F weighted e).
+  Proof.
+    intros W Hm. unfold aent, aco.
+    destruct (stored_single g u v W Hm) as [E|(e & E)]; rewrite E; [left|right; exists e]; auto.
+  Qed.
+
   Lemma stored_names (g : gstate) u v :
     WF g -> stored_between g u v <> [] -> In u (names g) /\ In v (names g).
   Proof.
